@@ -32,6 +32,139 @@ def _merge(res, parts):
                 res.samples.append(s)
 
 
+ERRNAME = {2: "ENOENT", 4: "EINTR", 5: "EIO", 9: "EBADF", 11: "EAGAIN", 13: "EACCES", 14: "EFAULT", 21: "EISDIR",
+           22: "EINVAL", 23: "ENFILE", 24: "EMFILE"}
+
+
+def _answers(toks):
+    """outcome tokens of a line -> [(kind, value, errno, sleep result)]; kind in openFail/openOk/read-1/read0/readN"""
+    out, i, e, r = [], 0, 0, 0
+    while i < len(toks):
+        t = toks[i]
+        if t == 8:
+            e = toks[i + 1]; i += 2; continue
+        if t == 9:
+            r = toks[i + 1]; i += 2; continue
+        if t == 0:
+            out.append(("openFail", -1, e, r)); i += 1
+        elif t == 1:
+            out.append(("openOk", toks[i + 1], e, r)); i += 2
+        elif t == 2:
+            out.append(("read-1", -1, e, r)); i += 1
+        elif t == 3:
+            out.append(("read0", 0, e, r)); i += 1
+        elif t == 4:
+            out.append(("readN", toks[i + 1], e, r)); i += 3
+        elif t == 5:
+            out.append(("readN", toks[i + 1], e, r)); i += 2 + toks[i + 1]
+        else:
+            raise ValueError("token %d" % t)
+        e = r = 0
+    return out
+
+
+def _lhs(line):
+    f = line.split("=>")[0].split()
+    nc = int(f[2])
+    return int(f[1]), [int(x) for x in f[3:3 + nc]], _answers([int(x) for x in f[3 + nc:]])
+
+
+def _fdclass(fd):
+    return str(fd) if fd <= 3 else ("small" if fd < 1024 else ("large" if fd < 2147483647 else "INT_MAX"))
+
+
+def _errno_coverage(lines):
+    """marginal histograms of the error-code dimension (kept out of the driver's class string: 336 classes already)"""
+    first_read, first_open, later_read, stale, slp, ebadf_fd = {}, {}, {}, 0, 0, {}
+    for l in lines:
+        try:
+            _, _, ans = _lhs(l)
+        except Exception:
+            continue
+        seen_r = seen_o = False
+        fd = None
+        for kind, val, e, r in ans:
+            nm = ERRNAME.get(e, "none" if e == 0 else str(e))
+            if kind == "openOk" and fd is None:
+                fd = val
+            if kind == "read-1":
+                d = later_read if seen_r else first_read
+                d[nm] = d.get(nm, 0) + 1
+                if e == 9 and fd is not None:
+                    k = _fdclass(fd)
+                    ebadf_fd[k] = ebadf_fd.get(k, 0) + 1
+                seen_r = True
+            elif kind == "openFail":
+                if not seen_o:
+                    first_open[nm] = first_open.get(nm, 0) + 1
+                seen_o = True
+            elif e:
+                stale += 1
+            if r:
+                slp += 1
+    return {"errno_of_first_failing_read(lines)": dict(sorted(first_read.items())),
+            "errno_of_later_failing_reads(answers)": dict(sorted(later_read.items())),
+            "errno_of_first_failing_open(lines)": dict(sorted(first_open.items())),
+            "read_EBADF_by_descriptor_value(answers)": dict(sorted(ebadf_fd.items())),
+            "answers>=0_with_stale_errno": stale, "answers_followed_by_interrupted_sleep": slp}
+
+
+def _diagnose(line):
+    """which clause of the property the implementation's call log breaks on this script (for the SPECFAIL entries)"""
+    try:
+        mode, xlens, ans = _lhs(line)
+        rhs = [int(x) for x in line.split("=>")[1].split()]
+    except Exception:
+        return None
+    # walk the per-call records: <returned> <nlog> entries... <buffer>
+    i, opens, events, notes = 0, [], [], []
+    ai = 0   # index of the next answer (each open/read entry with an answer consumes one)
+    for x in xlens:
+        if i + 2 > len(rhs) - 1:
+            break
+        returned, nlog = rhs[i], rhs[i + 1]
+        i += 2
+        for _ in range(nlog):
+            t = rhs[i]
+            if t in (1, 9):
+                ret = rhs[i + 1]; i += 2
+                if ret >= 0:
+                    opens.append(ret)
+                    if len(opens) == 2:
+                        notes.append("second successful open (descriptor %d) in one process history after %s" % (ret, events[-1] if events else "nothing"))
+                a = ans[ai] if ai < len(ans) else None; ai += 1
+                events.append("open=%d%s" % (ret, " errno=%s" % ERRNAME.get(a[2], a[2]) if a and ret < 0 and a[2] else ""))
+            elif t == 2:
+                fd, off, req, ret = rhs[i + 1:i + 5]; i += 5
+                a = ans[ai] if ai < len(ans) else None; ai += 1
+                if opens and fd != opens[0]:
+                    notes.append("read on descriptor %d, the opened one is %d" % (fd, opens[0]))
+                if not opens:
+                    notes.append("read on descriptor %d before any successful open" % fd)
+                events.append("read(fd=%d,off=%d,req=%d)=%d%s" % (fd, off, req, ret, " errno=%s" % ERRNAME.get(a[2], a[2]) if a and ret < 0 and a[2] else ""))
+            elif t == 3:
+                i += 2
+            elif t == 4:
+                i += 1
+                if opens:
+                    notes.append("open called again while descriptor %d is open (the script had no answer left for it), after %s" % (opens[0], events[-1] if events else "nothing"))
+            elif t == 5:
+                i += 4
+            else:
+                return None
+        # skip the buffer
+        n = rhs[i]
+        if mode == 0:
+            buf = rhs[i + 1:i + 1 + n]; i += 1 + n
+            if returned and any(v < 0 for v in buf):
+                notes.append("returned with %d of %d bytes not delivered by the device" % (sum(v < 0 for v in buf), n))
+        else:
+            nf = rhs[i + 3]; i += 4 + nf; nl = rhs[i]; i += 1 + nl + 1
+    if len(opens) > 1:
+        notes.insert(0, "%d successful opens (descriptors %s): the property allows at most 1" % (len(opens), ", ".join(map(str, opens))))
+    return "; ".join(dict.fromkeys(notes)) or None
+
+
 def _run(ctx, res, label, exe, env_extra=None):
     e = dict(os.environ)
     e.update(env_extra or {})
@@ -55,6 +188,7 @@ def _run(ctx, res, label, exe, env_extra=None):
         res.harness_rc = h.returncode
         res.harness_err += "[%s] rc=%d\n%s\n" % (label, h.returncode, h.stderr[-3000:])
     lines = [l for l in h.stdout.splitlines() if l.startswith("rb ")]
+    ctx["_rb_errno_cov"] = _errno_coverage(lines)
     # heavy (compact, >1 MiB) lines spread evenly over the driver processes
     heavy = [l for l in lines if l.startswith("rb 1 ")]
     light = [l for l in lines if not l.startswith("rb 1 ")]
@@ -84,7 +218,15 @@ def streams(ctx, res):
         return {}
     _run(ctx, res, "randbytes", exe)
     res.specfail.sort(key=lambda f: len(f["line"]))   # the replay keeps the first 20: shortest scripts first
-    return {"script_alphabet": "open fails | open ok(fd) | read -1 | read 0 | read 1 | read half | read all | read all-1 | read up to a given pointer offset (+ random count, explicit random bytes in the random part)",
+    for f in res.specfail[:3000]:
+        v = _diagnose(f["line"])
+        if v:
+            f["violation"] = v
+    # a completed second open (the clause "at most one successful open" broken outright) before the attempts the script left unanswered
+    res.specfail.sort(key=lambda f: (0 if "successful opens" in f.get("violation", "") else 1, len(f["line"])))
+    return {"error_codes": ctx.pop("_rb_errno_cov", {}),
+            "error_code_sets": "open = -1: ENOENT EACCES EMFILE ENFILE EINTR; read = -1: EINTR EAGAIN EIO EBADF EFAULT EISDIR EINVAL; read = 0 / answers >= 0: sometimes a stale errno; sleep returns 0 or 1",
+            "script_alphabet": "open fails [errno] | open ok(fd) | read -1 [errno] | read 0 | read 1 | read half | read all | read all-1 | read up to a given pointer offset (+ random count, explicit random bytes in the random part)",
             "descriptor_values": "0, 1, 2, 3, 255, 256, 1023, 1024, 32767, 32768, 65535, 65536, 2147483647 (class histogram: fd=0|1|2|small|large|INT_MAX on every multi-call line)",
             "request_sizes": "0, 1, 32 (full buffers), 2^20+5 (compact buffers); random part: 0..1000, 2^20-1, 2^20, 2^20+1, 2^20+5, 2^21+3",
             "bounded_exhaustive": "quick: all well-typed scripts of length <= 6 for sizes 0/1/32, <= 3 for 2^20+5, <= 3 for 11 multi-call sequences; thorough: 7 / 5 / 5"}
@@ -103,7 +245,8 @@ def search(ctx, res, problems):
         _run(c2, r2, "randbytes-search", exe, {"VERIF_SEED": str(ctx["seed"] * 1000 + s + 7), "VERIF_RB_NRAND": "6000",
                                                "VERIF_RB_LBIG": "2", "VERIF_RB_NBIG": "40"})
         for sf in r2.specfail:
-            found.append({"kind": "spec", **sf})
+            v = _diagnose(sf["line"])
+            found.append({"kind": "spec", **sf, **({"violation": v} if v else {})})
         found += c2.get("failing_inputs", [])
         if found:
             break
@@ -114,13 +257,14 @@ import props as _props  # noqa: E402  (COMMON_TB)
 
 PROP = {
     "streams": streams, "search": search,
-    "rule": "lib/prng/randombytes.cpp linked with --wrap=open,read,sleep; every script of OS answers is played to the real code in a forked child (static fd = -1 at start; multi-call sequences share it) and to the Lean model; compared: full call log (call, arguments incl. pointer offset and request size, answer), buffer (every byte, -1 = never written), number of answers consumed; scripts the code is still looping on when they end are compared too (it must not have returned). Bounded-exhaustive over {open fails, read -1, 0, 1, half, all} (and {…, count-1, all} for sizes 2 and 32); the value returned by the successful open is a dimension of its own: {0, 1, 2, 3, 255, 256, 1023, 1024, 32767, 32768, 65535, 65536, INT_MAX} x sequences of calls x 0/1 (thorough: 2) failed opens before it x every script of <= 2 (3) read outcomes and 9 fault patterns followed by enough full reads for all calls to return — reads must be issued on exactly that descriptor and no second open may happen; requests above 1 MiB (2^20+5, 2^21+3; thorough also 2^20+1, 2^20+2, 3·2^20): short reads that leave the pointer at a multiple of the chunk, one before, one after, and that leave chunk-1 / chunk / chunk+1 bytes wanted, then nothing / read -1 / read 0 / read 1, then full reads, a second small call after it; + seeded random scripts (random short counts, explicit random bytes, leftovers, 1-4 calls). distinct = distinct script lines; none is trivial",
+    "rule": "lib/prng/randombytes.cpp linked with --wrap=open,read,sleep; every script of OS answers is played to the real code in a forked child (static fd = -1 at start; multi-call sequences share it) and to the Lean model; compared: full call log (call, arguments incl. pointer offset and request size, answer), buffer (every byte, -1 = never written), number of answers consumed; scripts the code is still looping on when they end are compared too (it must not have returned). Bounded-exhaustive over {open fails, read -1, 0, 1, half, all} (and {…, count-1, all} for sizes 2 and 32); the value returned by the successful open is a dimension of its own: {0, 1, 2, 3, 255, 256, 1023, 1024, 32767, 32768, 65535, 65536, INT_MAX} x sequences of calls x 0/1 (thorough: 2) failed opens before it x every script of <= 2 (3) read outcomes and 9 fault patterns followed by enough full reads for all calls to return — reads must be issued on exactly that descriptor and no second open may happen; requests above 1 MiB (2^20+5, 2^21+3; thorough also 2^20+1, 2^20+2, 3·2^20): short reads that leave the pointer at a multiple of the chunk, one before, one after, and that leave chunk-1 / chunk / chunk+1 bytes wanted, then nothing / read -1 / read 0 / read 1, then full reads, a second small call after it; + seeded random scripts (random short counts, explicit random bytes, leftovers, 1-4 calls). The ERROR CODE of every failing answer is part of the script (`8 e` on the op line, stored in errno by the wrapper just before it returns -1): open: ENOENT/EACCES/EMFILE/ENFILE/EINTR, read: EINTR/EAGAIN/EIO/EBADF/EFAULT/EISDIR/EINVAL; the first failing read of every enumerated script gets the errno (hash(shape)+seed) mod 7 and, for shapes one outcome below the bound of the family (thorough: up to the bound), every one of the 7; on every descriptor value every fault pattern with a failing read once per read errno, the plain pattern after failed opens once per open errno; later failures, stale errno on read = 0, the result of sleep (0 / 1 = interrupted) from the same hash; random scripts draw all of them at random, also a stale errno on answers >= 0. The model (runCallsA) and the specification forget errno and the sleep result: any dependence of the code on them is a difference. Specification: successful opens <= 1 per process history, reads only on the opened descriptor (SPECFAIL entries carry a `violation` text). distinct = distinct script lines; none is trivial",
     "trusted_base": _props.COMMON_TB + [
-        "OS contract (stated in Model/RandomBytes.lean, not verified): open returns -1 or a descriptor >= 0; read(fd,p,n) returns -1, 0 or 1<=k<=n after storing exactly k bytes at p; sleep returns",
+        "OS contract (stated in Model/RandomBytes.lean, not verified): open returns -1 (errno set) or a descriptor >= 0; read(fd,p,n) returns -1 (errno set, nothing stored), 0 or 1<=k<=n after storing exactly k bytes at p; sleep returns 0 or the unslept seconds",
         "ld --wrap redirects exactly the open/read/sleep references of randombytes.o to the harness (checked indirectly: every call appears in the compared log; an unwrapped call would read the real /dev/urandom and the buffer comparison would fail)",
         "fork(): each script starts from the initial value of the file-static descriptor",
     ],
-    "assumptions": ["request sizes < 2^31 (the `int i` conversions of the code are exact; requests are capped at 2^20)",
+    "assumptions": ["a failing read stores nothing in the buffer (an environment scribbling into it before returning -1 is not played); no real signal is delivered (EINTR / the interrupted sleep are only the values returned); open never returns a descriptor already in use",
+                    "request sizes < 2^31 (the `int i` conversions of the code are exact; requests are capped at 2^20)",
                     "the environment respects the read contract (an answer longer than the request is flagged `overlong` by the model and never produced by the harness)",
                     "termination needs a fair environment (theorem completes_when_enough); on an endless failure sequence the function loops for ever by design (theorems spins_on_open_failures / spins_when_short)"],
 }
